@@ -10,6 +10,7 @@ import IdpyVerif.Driver.Registration
 import IdpyVerif.Driver.Subject
 import IdpyVerif.Driver.Claims
 import IdpyVerif.Driver.Resolve
+import IdpyVerif.Driver.FileStore
 open Idpy
 
 structure DState where
@@ -18,6 +19,7 @@ structure DState where
   ca : Driver.ClientAuthn.DS := {}
   jar : Driver.Jar.DS := {}
   reg : Registration.St := {}
+  fs : Driver.FileStore.DS := {}
 
 def dispatch (st : DState) (fields : List String) : DState × String :=
   match fields with
@@ -29,6 +31,10 @@ def dispatch (st : DState) (fields : List String) : DState × String :=
   | "redir" :: args => (st, (Driver.Redirect.handle args).getD "bad-op")
   | "msg" :: args => (st, (Driver.Msg.handle args).getD "bad-op")
   | "cookie" :: args => (st, (Driver.C17.handle args).getD "bad-op")
+  | "ie" :: args => (st, (Driver.FileStore.ieLine args).getD "bad-op")
+  | "fs" :: args =>
+    let (f', out) := Driver.FileStore.stepLine st.fs args
+    ({ st with fs := f' }, out)
   | "reg" :: args =>
     let (r', out) := Driver.Registration.stepLine st.reg args
     ({ st with reg := r' }, out)
